@@ -1,6 +1,7 @@
 """C20 - Averager counts every add once; throttle never exceeds its rate."""
 
 import json
+import math
 import os
 import subprocess
 import threading
@@ -20,7 +21,8 @@ RULE = ('Averager: 2-3 clients doing add(v)/get()/pop() (v small integers as flo
         'preemption inside an operation + distinct (count, seconds, pattern, callers) throttle cells')
 DISTINCT = ('averager_schedules', 'throttle_cells', 'throttle_schedules')
 REQUIRED = ('averager_schedules_checked', 'averager_pops', 'averager_free_runs', 'throttle_runs', 'throttle_calls_started',
-            'throttle_sleeps', 'throttle_concurrent_runs', 'throttle_runs_named_falsy', 'throttle_runs_named_derived', 'throttle_runs_on_jsondisk')
+            'throttle_sleeps', 'throttle_concurrent_runs', 'throttle_runs_named_falsy', 'throttle_runs_named_derived', 'throttle_runs_on_jsondisk',
+            'throttle_runs_coarse_clock')
 ASSUMPTIONS = ('throttle is driven through its own time_func/sleep_func parameters; virtual sleep blocks the caller '
                'until virtual time reaches the wake-up', 'liveness is restated as bounded progress (virtual seconds and '
                'loop iterations)')
@@ -218,20 +220,32 @@ def throttle_run(dc, sc, res, rng, label):
     arrivals = []
     loops = {}
     sleeps = [0]
+    quantum_box = [0]
 
     def vsleep(x):
         sleeps[0] += 1
         me = sch._me()
         if me is not None:
             loops[me.cid] = loops.get(me.cid, 0) + 1
-        clock.sleep(x)          # -> scheduler's on_sleep: blocks until virtual time reaches the wake-up
+        # -> scheduler's on_sleep: blocks until virtual time reaches the wake-up.  Under a coarse clock the decorator may
+        # ask for a vanishing delay (rounding) until the clock moves; a real sleep takes some minimum time, here an
+        # eighth of the clock's quantum, so that the busy-wait does not eat the step budget
+        clock.sleep(max(x, quantum_box[0] / 8.0))
 
     last = {}
+
+    # the throttle's clock may be coarse (whole or quarter seconds, a per-request timestamp): then several calls see
+    # the same instant and the refill lands exactly on whole tokens
+    quantum = gen.pick(rng, [0, 0, 0.25, 0.5, 1.0])
+    res.count('throttle_runs_coarse_clock' if quantum else 'throttle_runs_fine_clock')
+    quantum_box[0] = quantum
 
     def tfunc():
         # the instant the decorator itself used for its decision: a caller preempted between the
         # decision and the function body must not be charged for the virtual time that passed meanwhile
         v = clock.time()
+        if quantum:
+            v = math.floor(v / quantum) * quantum
         me = sch._me()
         last[me.cid if me is not None else -1] = v
         return v
